@@ -636,6 +636,12 @@ public:
                     break;
                 case parse_state::cr:
                     state_ = pop_state();
+                    if (state_ == parse_state::start) // nothing but white space before the end of input
+                    {
+                        more_ = false;
+                        ec = json_errc::unexpected_eof;
+                        return;
+                    }
                     break;
                 default:
                     err_handler_(json_errc::unexpected_eof, *this);
